@@ -851,6 +851,20 @@ package hashgraph
 //@   loop 5 invariant[voters] forall k int :: 0 <= k && k < len(ssWitnesses) ==> SSV(h, y, ssWitnesses[k], PSHexOf(jPrevPeerSet)) && DecidedOrWit(jPrevRoundInfo, ssWitnesses[k])
 //@   loop 6 invariant[tally] yays + nays == __idx() && yays == __countseq(ssWitnesses, __idx(), func(w string) bool { return __in(w, votes) && __in(x, votes[w]) && votes[w][x] })
 
+// DivideRounds: what is recorded for an undetermined event is the value of the round / witness / Lamport-timestamp
+// predicates for that event and nothing else; a round is (re)queued only if it is not queued, not decided and above
+// the lower bound.
+//@ func (h *Hashgraph) DivideRounds() error
+//@   requires h != nil && h.MemoOK() && h.PendingRounds != nil && h.PendingRounds.wf()
+//@   ensures[memo] h.MemoOK()
+//@   call SetRound#1 assert[round-value]   __recv() == ev && ev == G_events(h.Store)[hash] && __arg(0) == RoundV(h, hash)
+//@   call SetRound#2 assert[round-stored]  __arg(0) == RoundV(h, hash) && __arg(1) == roundInfo
+//@   call AddCreatedEvent assert[witness-value] __recv() == roundInfo && __arg(0) == hash && __arg(1) == WitV(h, hash) && (roundInfo == G_rounds(h.Store)[RoundV(h, hash)] || __fresh(roundInfo))
+//@   call SetLamportTimestamp assert[timestamp-value] __recv() == ev && (!G_miss(h.Store) ==> __arg(0) == LTV(h, hash))
+//@   call Set assume[size] len(h.PendingRounds.sortedItems) < 4611686018427387903
+//@   call Set assert[not-decided] !roundInfo.decided && (h.roundLowerBound == nil || roundNumber > *h.roundLowerBound) && !__in(roundNumber, h.PendingRounds.items)
+//@   loop 1 invariant[memo] h.MemoOK() && h.PendingRounds == old(h.PendingRounds) && h.PendingRounds.wf()
+
 // DecideRoundReceived: an event x gets round-received i only if i is above x's own round, round i is decided,
 // every famous witness recorded for round i sees x, and those famous witnesses number strictly more than two thirds of
 // round i's validator set; every round between x's round and i was examined first (ascending order).
